@@ -292,37 +292,186 @@ def parR (o : BOp) (a : Expr) : Bool :=
     | some p => isIte a || (isOp a && decide (prio a < p))
     | none => false
 
-def paren (b : Bool) (s : String) : String := if b then "(" ++ s ++ ")" else s
+/-! ### Tokens (the terminals of parser2's grammar) -/
 
-def pp : Expr → String
-  | .var x => x
-  | .int i => toString i
-  | .bool b => if b then "true" else "false"
-  | .un o a => o.str ++ paren (match o with | .not => parNot a | .neg => parNeg a) (pp a)
-  | .bin o a b => paren (parL o a) (pp a) ++ " " ++ o.str ++ " " ++ paren (parR o b) (pp b)
-  | .fn1 f a => f.str ++ "(" ++ pp a ++ ")"
-  | .fn2 f a b => f.str ++ "(" ++ pp a ++ "," ++ pp b ++ ")"
-  | .ite c a b => "if " ++ pp c ++ " then " ++ pp a ++ " else " ++ pp b
+inductive Tok where
+  | id (s : String)
+  | num (n : Nat)
+  | lp | rp | comma | plus | minus | star
+  | eqeq | neq | le | lt
+  | tilde | amp | bar | arrow
+  | ktrue | kif | kthen | kelse
+  | assign | semi | lbrace | rbrace | lbrack | rbrack | dot
+  | kskip | kwhile | kforall
+  | bad (s : String)      -- an operator of `Op` without concrete syntax in parser2 (>=, >, <-->): printed, never lexed
+  deriving DecidableEq, Repr, Inhabited
 
-/-- `Com.print_com`: the 'com' and 'inv' lines (indentation applied), no 'vc' lines since
-`pre`/`post` are empty on a command that `compute_wp` was not called on. -/
-def indentStr (n : Nat) : String := String.ofList (List.replicate n ' ')
+def BOp.tok : BOp → Tok
+  | .add => .plus | .sub => .minus | .mul => .star
+  | .eq => .eqeq | .ne => .neq | .le => .le | .lt => .lt
+  | .and => .amp | .or => .bar | .imp => .arrow
+  | .ge => .bad ">=" | .gt => .bad ">" | .iff => .bad "<-->"
 
-def addSemi : List String → List String
+/-- decimal digits of a natural number (what `str(int)` prints) -/
+def natDigits (n : Nat) : List Char :=
+  if h : n < 10 then [Char.ofNat (48 + n)] else natDigits (n / 10) ++ [Char.ofNat (48 + n % 10)]
+termination_by n
+decreasing_by omega
+
+/-- the characters of a token -/
+def tokChars : Tok → List Char
+  | .id s => s.toList
+  | .num n => natDigits n
+  | .lp => ['('] | .rp => [')'] | .comma => [','] | .plus => ['+'] | .minus => ['-'] | .star => ['*']
+  | .eqeq => ['=', '='] | .neq => ['!', '='] | .le => ['<', '='] | .lt => ['<']
+  | .tilde => ['~'] | .amp => ['&'] | .bar => ['|'] | .arrow => ['-', '-', '>']
+  | .ktrue => ['t', 'r', 'u', 'e'] | .kif => ['i', 'f'] | .kthen => ['t', 'h', 'e', 'n'] | .kelse => ['e', 'l', 's', 'e']
+  | .assign => [':', '='] | .semi => [';'] | .lbrace => ['{'] | .rbrace => ['}'] | .lbrack => ['['] | .rbrack => [']']
+  | .dot => ['.']
+  | .kskip => ['s', 'k', 'i', 'p'] | .kwhile => ['w', 'h', 'i', 'l', 'e'] | .kforall => ['f', 'o', 'r', 'a', 'l', 'l']
+  | .bad s => s.toList
+
+/-- What is printed: tokens and white space (`ws nl k`: a newline if `nl`, then `k` blanks). -/
+inductive Item where
+  | tok (t : Tok)
+  | ws (nl : Bool) (k : Nat)
+  deriving Repr
+
+abbrev Item.sp : Item := .ws false 1
+
+def Item.chars : Item → List Char
+  | .tok t => tokChars t
+  | .ws nl k => (if nl then ['\n'] else []) ++ List.replicate k ' '
+
+def render : List Item → List Char
   | [] => []
-  | [l] => [l ++ ";"]
-  | l :: ls => l :: addSemi ls
+  | i :: l => i.chars ++ render l
 
-def ppCom (ind : Nat) : Com → List String
-  | .skip => [indentStr ind ++ "skip"]
-  | .assign x e => [indentStr ind ++ x ++ " := " ++ pp e]
-  | .seq c1 c2 => addSemi (ppCom ind c1) ++ ppCom ind c2
+def tokensOf : List Item → List Tok
+  | [] => []
+  | .tok t :: l => t :: tokensOf l
+  | .ws _ _ :: l => tokensOf l
+
+def parenI (b : Bool) (l : List Item) : List Item := if b then .tok .lp :: l ++ [.tok .rp] else l
+
+/-- `Expr.__str__` as tokens and blanks: "%s%s" for unary, "%s %s %s" for binary operators,
+"f(a,b)", "if %s then %s else %s", parentheses by the fixed rules. -/
+def items : Expr → List Item
+  | .var x => [.tok (.id x)]
+  | .int i => if i < 0 then [.tok .minus, .tok (.num i.natAbs)] else [.tok (.num i.toNat)]
+  | .bool b => if b then [.tok .ktrue] else [.tok (.id "false")]
+  | .un .neg a => .tok .minus :: parenI (parNeg a) (items a)
+  | .un .not a => .tok .tilde :: parenI (parNot a) (items a)
+  | .bin o a b => parenI (parL o a) (items a) ++ .sp :: .tok o.tok :: .sp :: parenI (parR o b) (items b)
+  | .fn1 f a => .tok (.id f.str) :: .tok .lp :: items a ++ [.tok .rp]
+  | .fn2 f a b => .tok (.id f.str) :: .tok .lp :: items a ++ .tok .comma :: items b ++ [.tok .rp]
+  | .ite c a b => .tok .kif :: .sp :: items c ++ .sp :: .tok .kthen :: .sp :: items a ++ .sp :: .tok .kelse :: .sp :: items b
+
+/-- `str(e)` -/
+def pp (e : Expr) : String := String.ofList (render (items e))
+
+/-- `Com.print_com` (the 'com' and 'inv' lines joined by newlines; no 'vc' lines since `pre`/`post`
+are empty on a command that `compute_wp` was not called on): every line starts with its indentation,
+`;` is appended to the last line of the first part of a sequence. -/
+def comItems (ind : Nat) : Com → List Item
+  | .skip => [.ws false ind, .tok .kskip]
+  | .assign x e => .ws false ind :: .tok (.id x) :: .sp :: .tok .assign :: .sp :: items e
+  | .seq c1 c2 => comItems ind c1 ++ .tok .semi :: .ws true 0 :: comItems ind c2
   | .cond b c1 c2 =>
-    [indentStr ind ++ "if (" ++ pp b ++ ") then"] ++ ppCom (ind + 2) c1 ++
-    [indentStr ind ++ "else"] ++ ppCom (ind + 2) c2
+    .ws false ind :: .tok .kif :: .sp :: .tok .lp :: items b ++ .tok .rp :: .sp :: .tok .kthen :: .ws true 0 ::
+      comItems (ind + 2) c1 ++ .ws true ind :: .tok .kelse :: .ws true 0 :: comItems (ind + 2) c2
   | .while b inv c =>
-    [indentStr ind ++ "while (" ++ pp b ++ ") {", indentStr (ind + 2) ++ "[" ++ pp inv ++ "]"] ++
-    ppCom (ind + 2) c ++ [indentStr ind ++ "}"]
+    .ws false ind :: .tok .kwhile :: .sp :: .tok .lp :: items b ++ .tok .rp :: .sp :: .tok .lbrace ::
+      .ws true (ind + 2) :: .tok .lbrack :: items inv ++ .tok .rbrack :: .ws true 0 ::
+      comItems (ind + 2) c ++ [.ws true ind, .tok .rbrace]
+
+def ppCom (c : Com) : String := String.ofList (render (comItems 0 c))
+
+/-! ### Lexer: Lark's standard lexer for the terminals of the grammar
+
+At each position white space is skipped; then CNAME `[a-zA-Z_][a-zA-Z0-9_]*` and INT `[0-9]+` are
+matched as long as possible (a CNAME equal to a keyword literal becomes that keyword: Lark's
+`unless` callback), then the longest literal.  `none` when no terminal matches. -/
+
+def isIdStart (c : Char) : Bool := c.isAlpha || c == '_'
+def isIdChar (c : Char) : Bool := c.isAlphanum || c == '_'
+def isWs (c : Char) : Bool := c == ' ' || c == '\t' || c == '\n' || c == '\r' || c == '\x0c'
+
+def keyword (s : String) : Tok :=
+  if s = "true" then .ktrue else if s = "if" then .kif else if s = "then" then .kthen
+  else if s = "else" then .kelse else if s = "skip" then .kskip else if s = "while" then .kwhile
+  else if s = "forall" then .kforall else .id s
+
+def digitsToNat (ds : List Char) : Nat := ds.foldl (fun n c => 10 * n + (c.toNat - '0'.toNat)) 0
+
+/-- the longest literal at the head of the input -/
+def symTok : List Char → Option (Tok × List Char)
+  | '-' :: '-' :: '>' :: r => some (.arrow, r)
+  | '=' :: '=' :: r => some (.eqeq, r)
+  | '!' :: '=' :: r => some (.neq, r)
+  | '<' :: '=' :: r => some (.le, r)
+  | ':' :: '=' :: r => some (.assign, r)
+  | '(' :: r => some (.lp, r)
+  | ')' :: r => some (.rp, r)
+  | ',' :: r => some (.comma, r)
+  | '+' :: r => some (.plus, r)
+  | '-' :: r => some (.minus, r)
+  | '*' :: r => some (.star, r)
+  | '<' :: r => some (.lt, r)
+  | '~' :: r => some (.tilde, r)
+  | '&' :: r => some (.amp, r)
+  | '|' :: r => some (.bar, r)
+  | ';' :: r => some (.semi, r)
+  | '{' :: r => some (.lbrace, r)
+  | '}' :: r => some (.rbrace, r)
+  | '[' :: r => some (.lbrack, r)
+  | ']' :: r => some (.rbrack, r)
+  | '.' :: r => some (.dot, r)
+  | _ => none
+
+/-- one token at the head of the input (which does not start with white space) -/
+def nextTok : List Char → Option (Tok × List Char)
+  | [] => none
+  | c :: cs =>
+    if isIdStart c then some (keyword (String.ofList (c :: cs.takeWhile isIdChar)), cs.dropWhile isIdChar)
+    else if c.isDigit then some (.num (digitsToNat (c :: cs.takeWhile Char.isDigit)), cs.dropWhile Char.isDigit)
+    else symTok (c :: cs)
+
+/-- Fuel = number of characters + 1 (every token has at least one character). -/
+def lexF : Nat → List Char → Option (List Tok)
+  | 0, _ => none
+  | n + 1, cs => match cs.dropWhile isWs with
+    | [] => some []
+    | c :: r => match nextTok (c :: r) with
+      | some (t, r') => (lexF n r').map (t :: ·)
+      | none => none
+
+def lex (s : String) : Option (List Tok) := lexF (s.length + 1) s.toList
+
+/-- identifiers the theorems are about: CNAME shape, not a keyword of the grammar -/
+def nameOK (x : String) : Bool :=
+  match x.toList with
+  | [] => false
+  | c :: cs => isIdStart c && cs.all isIdChar && (keyword x == .id x)
+
+/-! ### Token-level printer
+
+`toks e` is the token sequence of `pp e` (`lex_print` in Props.lean); `normNeg e` is what the grammar
+can give back for it: a negative constant `Const(-n)` prints as `-n`, which reads as unary minus
+applied to `Const(n)`. -/
+
+def parenT (b : Bool) (ts : List Tok) : List Tok := if b then .lp :: ts ++ [.rp] else ts
+
+def toks : Expr → List Tok
+  | .var x => [.id x]
+  | .int i => if i < 0 then [.minus, .num i.natAbs] else [.num i.toNat]
+  | .bool b => if b then [.ktrue] else [.id "false"]
+  | .un .neg a => .minus :: parenT (parNeg a) (toks a)
+  | .un .not a => .tilde :: parenT (parNot a) (toks a)
+  | .bin o a b => parenT (parL o a) (toks a) ++ o.tok :: parenT (parR o b) (toks b)
+  | .fn1 f a => .id f.str :: .lp :: toks a ++ [.rp]
+  | .fn2 f a b => .id f.str :: .lp :: toks a ++ .comma :: toks b ++ [.rp]
+  | .ite c a b => .kif :: toks c ++ .kthen :: toks a ++ .kelse :: toks b
 
 /-! ## The assertion language and well-sortedness (decidable; the driver answers them for every generated input)
 
@@ -379,6 +528,42 @@ def wsCom : Com → Bool
   | .cond b c1 c2 => tyC b && wsCom c1 && wsCom c2
   | .while b _ c => tyC b && wsCom c
 
+/-! ## Decidable hypotheses of the lexer theorems (answered by the driver for every generated input) -/
+
+def opOK (o : BOp) : Bool := o.isArith || o.isRel || o.boolPrio.isSome
+
+/-- expressions all of whose tokens have a concrete syntax: operators of the grammar, names that are identifiers -/
+def lexOK : Expr → Bool
+  | .var x => nameOK x
+  | .int _ | .bool _ => true
+  | .un _ a => lexOK a
+  | .bin o a b => opOK o && lexOK a && lexOK b
+  | .fn1 _ a => lexOK a
+  | .fn2 _ a b => lexOK a && lexOK b
+  | .ite c a b => lexOK c && lexOK a && lexOK b
+
+/-- all variable names are identifiers that are not keywords -/
+def namesOK : Expr → Bool
+  | .var x => nameOK x
+  | .int _ | .bool _ => true
+  | .un _ a => namesOK a
+  | .bin _ a b => namesOK a && namesOK b
+  | .fn1 _ a => namesOK a
+  | .fn2 _ a b => namesOK a && namesOK b
+  | .ite c a b => namesOK c && namesOK a && namesOK b
+
+/-- a condition of the assertion language over identifiers -/
+def okE (e : Expr) : Bool := wfC e && namesOK e
+
+/-- a program whose guards and invariants are such conditions and whose assigned expressions are
+arithmetic expressions of the assertion language over identifiers -/
+def okCom : Com → Bool
+  | .skip => true
+  | .assign _ e => wfA e && namesOK e
+  | .seq c1 c2 => okCom c1 && okCom c2
+  | .cond b c1 c2 => okE b && okCom c1 && okCom c2
+  | .while b inv c => okE b && okE inv && okCom c
+
 /-! ## `imp.vcg` (the HOL-level generator of imperative/imp.py)
 
 `imp.vcg T (Valid P c Q)` applies `pre_rule` to `compute_wp`, whose `While` case assumes
@@ -398,94 +583,6 @@ def getVcsH : ACom → List Expr
 
 def vcsH (p : Expr) (c : Com) (q : Expr) : List Expr := getVcsH (computeWp c [p] q)
 
-/-! ## Tokens and lexer -/
-
-inductive Tok where
-  | id (s : String)
-  | num (n : Nat)
-  | lp | rp | comma | plus | minus | star
-  | eqeq | neq | le | lt
-  | tilde | amp | bar | arrow
-  | ktrue | kif | kthen | kelse
-  | assign | semi | lbrace | rbrace | lbrack | rbrack | dot
-  | kskip | kwhile | kforall
-  deriving DecidableEq, Repr, Inhabited
-
-def isIdStart (c : Char) : Bool := c.isAlpha || c == '_'
-def isIdChar (c : Char) : Bool := c.isAlphanum || c == '_'
-def isWs (c : Char) : Bool := c == ' ' || c == '\t' || c == '\n' || c == '\r' || c == '\x0c'
-
-def keyword (s : String) : Tok :=
-  if s = "true" then .ktrue else if s = "if" then .kif else if s = "then" then .kthen
-  else if s = "else" then .kelse else if s = "skip" then .kskip else if s = "while" then .kwhile
-  else if s = "forall" then .kforall else .id s
-
-def digitsToNat (ds : List Char) : Nat := ds.foldl (fun n c => 10 * n + (c.toNat - '0'.toNat)) 0
-
-/-- Maximal-munch lexer (identifiers, numbers, then the longest symbol); `none` on a character
-no terminal matches. Fuel = number of characters left + 1. -/
-def lexAux : Nat → List Char → List Tok → Option (List Tok)
-  | 0, _, _ => none
-  | _, [], acc => some acc.reverse
-  | n + 1, c :: cs, acc =>
-    if isWs c then lexAux n cs acc
-    else if isIdStart c then
-      let w := c :: cs.takeWhile isIdChar
-      lexAux n (cs.dropWhile isIdChar) (keyword (String.ofList w) :: acc)
-    else if c.isDigit then
-      let w := c :: cs.takeWhile Char.isDigit
-      lexAux n (cs.dropWhile Char.isDigit) (.num (digitsToNat w) :: acc)
-    else match c, cs with
-      | '-', '-' :: '>' :: r => lexAux n r (.arrow :: acc)
-      | '=', '=' :: r => lexAux n r (.eqeq :: acc)
-      | '!', '=' :: r => lexAux n r (.neq :: acc)
-      | '<', '=' :: r => lexAux n r (.le :: acc)
-      | ':', '=' :: r => lexAux n r (.assign :: acc)
-      | '(', r => lexAux n r (.lp :: acc)
-      | ')', r => lexAux n r (.rp :: acc)
-      | ',', r => lexAux n r (.comma :: acc)
-      | '+', r => lexAux n r (.plus :: acc)
-      | '-', r => lexAux n r (.minus :: acc)
-      | '*', r => lexAux n r (.star :: acc)
-      | '<', r => lexAux n r (.lt :: acc)
-      | '~', r => lexAux n r (.tilde :: acc)
-      | '&', r => lexAux n r (.amp :: acc)
-      | '|', r => lexAux n r (.bar :: acc)
-      | ';', r => lexAux n r (.semi :: acc)
-      | '{', r => lexAux n r (.lbrace :: acc)
-      | '}', r => lexAux n r (.rbrace :: acc)
-      | '[', r => lexAux n r (.lbrack :: acc)
-      | ']', r => lexAux n r (.rbrack :: acc)
-      | '.', r => lexAux n r (.dot :: acc)
-      | _, _ => none
-
-def lex (s : String) : Option (List Tok) := lexAux (s.length + 1) s.toList []
-
-/-! ## Token-level printer
-
-`toks e` is the token sequence of `pp e` (checked against `lex (pp e)` by the harness on every
-generated expression); `normNeg e` is what the grammar can give back for it: a negative constant
-`Const(-n)` prints as `-n`, which reads as unary minus applied to `Const(n)`. -/
-
-def parenT (b : Bool) (ts : List Tok) : List Tok := if b then .lp :: ts ++ [.rp] else ts
-
-def BOp.tok : BOp → Tok
-  | .add => .plus | .sub => .minus | .mul => .star
-  | .eq => .eqeq | .ne => .neq | .le => .le | .lt => .lt
-  | .and => .amp | .or => .bar | .imp => .arrow
-  | .ge | .gt | .iff => .dot
-
-def toks : Expr → List Tok
-  | .var x => [.id x]
-  | .int i => if i < 0 then [.minus, .num i.natAbs] else [.num i.toNat]
-  | .bool b => if b then [.ktrue] else [.id "false"]
-  | .un .neg a => .minus :: parenT (parNeg a) (toks a)
-  | .un .not a => .tilde :: parenT (parNot a) (toks a)
-  | .bin o a b => parenT (parL o a) (toks a) ++ o.tok :: parenT (parR o b) (toks b)
-  | .fn1 f a => .id f.str :: .lp :: toks a ++ [.rp]
-  | .fn2 f a b => .id f.str :: .lp :: toks a ++ .comma :: toks b ++ [.rp]
-  | .ite c a b => .kif :: toks c ++ .kthen :: toks a ++ .kelse :: toks b
-
 def normNeg : Expr → Expr
   | .var x => .var x
   | .int i => if i < 0 then .un .neg (.int (-i)) else .int i
@@ -496,6 +593,22 @@ def normNeg : Expr → Expr
   | .fn2 f a b => .fn2 f (normNeg a) (normNeg b)
   | .ite c a b => .ite (normNeg c) (normNeg a) (normNeg b)
 
+
+/-- the tokens of a printed program -/
+def comToks : Com → List Tok
+  | .skip => [.kskip]
+  | .assign x e => .id x :: .assign :: toks e
+  | .seq c1 c2 => comToks c1 ++ .semi :: comToks c2
+  | .cond b c1 c2 => .kif :: .lp :: toks b ++ .rp :: .kthen :: comToks c1 ++ .kelse :: comToks c2
+  | .while b inv c => .kwhile :: .lp :: toks b ++ .rp :: .lbrace :: .lbrack :: toks inv ++ .rbrack :: comToks c ++ [.rbrace]
+
+/-- programs all of whose tokens have a concrete syntax -/
+def lexOKc : Com → Bool
+  | .skip => true
+  | .assign x e => nameOK x && lexOK e
+  | .seq c1 c2 => lexOKc c1 && lexOKc c2
+  | .cond b c1 c2 => lexOK b && lexOKc c1 && lexOKc c2
+  | .while b inv c => lexOK b && lexOK inv && lexOKc c
 
 /-! ## Parser
 
